@@ -25,6 +25,7 @@ import random
 import shutil
 import sys
 import tempfile
+import traceback
 import uuid
 
 from harness import common, regfix, tlc
@@ -54,7 +55,12 @@ def _run_chunk(args):
         try:
             out.append(func(item))
         except Exception as exc:  # pylint: disable=broad-except
-            out.append({'crash': f'{type(exc).__name__}: {exc}'})
+            frames = traceback.extract_tb(exc.__traceback__)
+            if any(f.filename.startswith(common.REPO + os.sep) for f in frames):
+                # an exception that came out of forml where the replay expected none: an observation about the code
+                out.append({'escaped': f'{type(exc).__name__}: {exc}'})
+            else:
+                out.append({'crash': f'{type(exc).__name__}: {exc}'})
     return out
 
 
@@ -182,9 +188,13 @@ def listing_verdict(lat, expected, observed_keys):
     return observed == list(expected)
 
 
+class Raised(str):
+    """An exception of forml other than the documented 'no such level / empty listing' ones: an observation, not a crash."""
+
+
 def real_level(lat, names, tmp):
     """Materialise a level with the given sub-directory names in a fresh posix registry and list it through the public
-    asset.Directory API. Returns (listing as real keys | None when the level does not exist, latest | None)."""
+    asset.Directory API. Returns (listing as real keys | None when the level does not exist | Raised, latest | None | Raised)."""
     from forml.io import asset
     root = tempfile.mkdtemp(prefix='lvl-', dir=tmp)
     try:
@@ -204,10 +214,14 @@ def real_level(lat, names, tmp):
             listing = list(level().list())
         except (asset.Level.Invalid, asset.Level.Listing.Empty):
             listing = None  # a project without a single valid release is not a project
+        except Exception as exc:  # pylint: disable=broad-except
+            listing = Raised(f'{type(exc).__name__}: {exc}')
         try:
             latest = level().get(None).key
         except (asset.Level.Invalid, asset.Level.Listing.Empty):
             latest = None
+        except Exception as exc:  # pylint: disable=broad-except
+            latest = Raised(f'{type(exc).__name__}: {exc}')
         return listing, latest
     finally:
         shutil.rmtree(root, ignore_errors=True)
@@ -219,6 +233,11 @@ def _listing_item(st):
     names = [lat.name(d, nspell) for d in st['dirs']]
     listing, latest = real_level(lat, names, scratch())
     replay = {'kind': 'listing', 'mode': mode, 'names': names, 'expected': [lat.name({'v': c, 's': 1}, nspell) for c in st['listing']]}
+    if isinstance(listing, Raised) or isinstance(latest, Raised):
+        text = listing if isinstance(listing, Raised) else latest
+        replay['observed'] = [[str(text)], None]
+        return {'fail': f'{mode} level with sub-directories {names}: listing it / resolving its latest key raised {text}',
+                'replay': replay, 'listing': None}
     out = {'fail': None, 'replay': replay, 'listing': None if listing is None else [str(k) for k in listing]}
     replay['observed'] = [out['listing'], None if latest is None else str(latest)]
     if listing is None:
@@ -252,6 +271,9 @@ def _random_level_item(item):
     vers, names = item
     lat = collections.namedtuple('L', 'mode')('release')
     listing, latest = real_level(lat, names, scratch())
+    if isinstance(listing, Raised) or isinstance(latest, Raised):
+        text = str(listing if isinstance(listing, Raised) else latest)
+        return {'listing': [0], 'latest': 0, 'text': text, 'latest_text': None}
     norms = [norm_version(v) for v in vers]
 
     def index(key):
@@ -280,12 +302,13 @@ def random_levels(chk, rnd):
                 kept.append(v)
         extra = [x for x in INVALID_RELEASE if rnd.random() < 0.1]
         items.append((kept, names + extra))
-    outs = pmap(_random_level_item, items, chk_procs(chk))
+    outs = [{'listing': [0], 'latest': 0, 'text': o['escaped'], 'latest_text': None} if 'escaped' in o else o
+            for o in pmap(_random_level_item, items, chk_procs(chk))]
     obs, reported = [], set()
     for (vers, names), out in zip(items, outs):
         if 0 in out['listing'] or (out['latest'] == 0 and vers):
             reported.add(len(obs) + 1)
-            chk.fail(f'release level {names}: listed {out["text"]} / latest index {out["latest"]}: a key that was never written',
+            chk.fail(f'release level {names}: listed {out["text"]} / latest index {out["latest"]}: raised, or a key that was never written',
                      {'kind': 'listing', 'mode': 'release', 'names': names, 'observed': [out['text'], out['latest_text']]})
             out = dict(out, listing=[], latest=0)  # judged (and rejected) below unless the level is empty
         obs.append({'vers': vers, 'listing': out['listing'], 'latest': out['latest']})
@@ -408,6 +431,10 @@ def keys_part(chk, rnd):
         _CTX.update(lat=lat, nspell=nspell)
         done = 0
         for n, (st, out) in enumerate(zip(states, pmap(_listing_item, states, chk_procs(chk)))):
+            if 'escaped' in out:
+                names = [lat.name(d, nspell) for d in st['dirs']]
+                out = {'fail': f'{mode} level with sub-directories {names}: forml raised {out["escaped"]}',
+                       'replay': {'kind': 'listing', 'mode': mode, 'names': names, 'observed': [[out['escaped']], None]}}
             if out['fail']:
                 chk.fail(out['fail'], out['replay'])
                 continue
@@ -417,10 +444,17 @@ def keys_part(chk, rnd):
         chk.validated(done)
         total_states += len(states)
         multi = next(st for st in states if len(st['listing']) >= 2)
-        names = [lat.name(d, nspell) for d in multi['dirs']]
-        listing, _ = real_level(lat, names, scratch())
-        chk.selftest(f'{label}_reversed_listing_rejected', not listing_verdict(lat, multi['listing'], list(reversed(listing))))
-        chk.selftest(f'{label}_duplicated_listing_rejected', not listing_verdict(lat, multi['listing'], listing + listing[-1:]))
+        try:  # binding self-test on the real key objects of a level with several keys
+            keys = [Key(lat.name({'v': c, 's': 1}, nspell)) for c in multi['listing']]
+            rejected = [not listing_verdict(lat, multi['listing'], list(reversed(keys))),
+                        not listing_verdict(lat, multi['listing'], keys + keys[-1:]), listing_verdict(lat, multi['listing'], keys)]
+        except Exception:  # pylint: disable=broad-except
+            if not chk.violations:
+                raise
+            rejected = None  # the key types themselves are broken (already reported above)
+        if rejected:
+            chk.selftest(f'{label}_reversed_listing_rejected', rejected[0] and rejected[2])
+            chk.selftest(f'{label}_duplicated_listing_rejected', rejected[1] and rejected[2])
         chk.extra.setdefault('keys', {})[label] = {'lattice': lat.n, 'spellings': nspell, 'invalid_names': ninv, 'max_entries': maxkeys,
                                                   'level_states_replayed': len(states), 'ordered_pairs_compared': pairs}
     random_levels(chk, rnd)
@@ -658,6 +692,10 @@ def tags_domain(chk, nt, ns):
     # ---- 3. spec -> code: one witness history per dumped tag, through dumps/loads AND a real posix registry
     nh = other = 0
     for n, (h, out) in enumerate(zip(hists, pmap(_history_item, hists, chk_procs(chk)))):
+        if 'escaped' in out:
+            dumped = next((e['res'] for e in h['hist'] if e['op'] == 'dump'), None)
+            out = {'status': 'fail', 'what': f'tag history {[(e["op"], _argtext(e["op"], e["a"])) for e in h["hist"]]}: forml raised '
+                                             f'{out["escaped"]}', 'finding': tag_finding(dumped) if dumped else None}
         if out['status'] == 'fail':
             chk.fail(out['what'], {'kind': 'taghistory', 'history': h}, finding=out['finding'])
         elif out['status'] == 'other-branch':
@@ -751,82 +789,95 @@ def _history_item(h):
     return {'status': 'ok', 'what': None, 'finding': None}
 
 
+def through_forml(exc):
+    return any(f.filename.startswith(common.REPO + os.sep) for f in traceback.extract_tb(exc.__traceback__))
+
+
+def record_session(chk, rnd, root, rel, trace, dumps):
+    """One seeded random life-cycle session on the real code; events are appended to `trace`."""
+    noarg = {'ts': 0, 'ord': NOORD, 'sc': NOSCORE, 'st': []}
+    ts_ids = dict(TS)
+    sid_ids = {}
+    tag = open_release(root, rel).get(None).tag  # NOTAG of an empty release
+    hint = None
+    gens = rnd.randint(1, 3)
+    for g in range(gens):
+        untrained = g == 0 and rnd.random() < 0.05
+        nops = rnd.randint(1, 6)
+        for i in range(nops):
+            choices = ['tune_trigger', 'replace_states']
+            if not untrained:
+                choices += ['train_trigger', 'train_trigger_now']
+            if tag.training:
+                choices += ['replace_ordinal'] * 2
+            if tag.tuning:
+                choices.append('replace_score')
+            op = 'train_trigger' if (i == 0 and not untrained and not tag.training) else rnd.choice(choices)
+            a = dict(noarg)
+            if op == 'train_trigger_now':  # the way Runner.train triggers: timestamp = now
+                before = datetime.datetime.utcnow()
+                tag = tag.training.trigger()
+                after = datetime.datetime.utcnow()
+                stamp = tag.training.timestamp
+                if not (isinstance(stamp, datetime.datetime) and before <= stamp <= after):
+                    chk.fail(f'training.trigger() set the timestamp {stamp!r}, not the current time', {'kind': 'session', 'trace': trace})
+                    break
+                tid = max(ts_ids) + 1
+                ts_ids[tid] = stamp
+                op, a = 'train_trigger', dict(noarg, ts=tid)
+            elif op in ('train_trigger', 'tune_trigger'):
+                a = dict(noarg, ts=rnd.choice(list(TS)))
+                tag = apply_op(tag, op, a)
+            elif op == 'replace_ordinal':
+                k = rnd.choice(KINDS + ['none'])
+                a = dict(noarg, ord=dict(NOORD) if k == 'none' else {'k': k, 'v': rnd.choice(list(ORD[k]))})
+                hint = a['ord']['k']
+                tag = apply_op(tag, op, a)
+            elif op == 'replace_score':
+                a = dict(noarg, sc=rnd.choice([dict(NOSCORE)] + [{'p': True, 'v': v} for v in SCORE]))
+                tag = apply_op(tag, op, a)
+            else:
+                k = rnd.randint(0, 3)
+                new = [open_release(root, rel).dump(b'x' * rnd.randint(0, 5)) for _ in range(k)]
+                for s in new:
+                    sid_ids[s] = len(sid_ids) + 1
+                keep = [s for s in tag.states if rnd.random() < 0.3]
+                states = keep + new
+                rnd.shuffle(states)
+                a = dict(noarg, st=[sid_ids[s] for s in states])
+                tag = tag.replace(states=states)
+            trace.append({'op': op, 'a': a, 'res': proj_tag(tag, ts_ids, sid_ids, hint)})
+        else:
+            committed = proj_tag(tag, ts_ids, sid_ids, hint)
+            trace.append({'op': 'dump', 'a': dict(noarg), 'res': committed})
+            dumps[len(trace)] = committed
+            back, _ = commit_and_reopen(root, rel, tag)
+            trace.append({'op': 'load', 'a': dict(noarg), 'res': FAILED if back is None else proj_tag(back, ts_ids, sid_ids, hint)})
+            if back is None:
+                break
+            tag = back
+            continue
+        break
+
+
 def sessions(chk, rnd, tmp):
     """code -> spec: seeded random life-cycle sessions on the real Tag / Release / Generation, recorded and validated."""
-    from forml.io import asset
     n = 150 if chk.quick else 1500
     rels = Releases(scratch())
     traces, dumped = [], []
     noarg = {'ts': 0, 'ord': NOORD, 'sc': NOSCORE, 'st': []}
     for _ in range(n):
         root, rel = rels.fresh()
-        ts_ids = dict(TS)
-        sid_ids = {}
         trace, dumps = [], {}
-        tag = open_release(root, rel).get(None).tag  # NOTAG of an empty release
-        hint = None
-        gens = rnd.randint(1, 3)
-        for g in range(gens):
-            untrained = g == 0 and rnd.random() < 0.05
-            nops = rnd.randint(1, 6)
-            for i in range(nops):
-                choices = ['tune_trigger', 'replace_states']
-                if not untrained:
-                    choices += ['train_trigger', 'train_trigger_now']
-                if tag.training:
-                    choices += ['replace_ordinal'] * 2
-                if tag.tuning:
-                    choices.append('replace_score')
-                op = 'train_trigger' if (i == 0 and not untrained and not tag.training) else rnd.choice(choices)
-                a = dict(noarg)
-                if op == 'train_trigger_now':  # the way Runner.train triggers: timestamp = now
-                    before = datetime.datetime.utcnow()
-                    tag = tag.training.trigger()
-                    after = datetime.datetime.utcnow()
-                    stamp = tag.training.timestamp
-                    if not (isinstance(stamp, datetime.datetime) and before <= stamp <= after):
-                        chk.fail(f'training.trigger() set the timestamp {stamp!r}, not the current time', {'kind': 'session', 'trace': trace})
-                        break
-                    tid = max(ts_ids) + 1
-                    ts_ids[tid] = stamp
-                    op, a = 'train_trigger', dict(noarg, ts=tid)
-                elif op in ('train_trigger', 'tune_trigger'):
-                    a = dict(noarg, ts=rnd.choice(list(TS)))
-                    tag = apply_op(tag, op, a)
-                elif op == 'replace_ordinal':
-                    k = rnd.choice(KINDS + ['none'])
-                    a = dict(noarg, ord=dict(NOORD) if k == 'none' else {'k': k, 'v': rnd.choice(list(ORD[k]))})
-                    hint = a['ord']['k']
-                    tag = apply_op(tag, op, a)
-                elif op == 'replace_score':
-                    a = dict(noarg, sc=rnd.choice([dict(NOSCORE)] + [{'p': True, 'v': v} for v in SCORE]))
-                    tag = apply_op(tag, op, a)
-                else:
-                    k = rnd.randint(0, 3)
-                    new = [open_release(root, rel).dump(b'x' * rnd.randint(0, 5)) for _ in range(k)]
-                    for s in new:
-                        sid_ids[s] = len(sid_ids) + 1
-                    keep = [s for s in tag.states if rnd.random() < 0.3]
-                    states = keep + new
-                    rnd.shuffle(states)
-                    a = dict(noarg, st=[sid_ids[s] for s in states])
-                    tag = tag.replace(states=states)
-                trace.append({'op': op, 'a': a, 'res': proj_tag(tag, ts_ids, sid_ids, hint)})
-            else:
-                committed = proj_tag(tag, ts_ids, sid_ids, hint)
-                trace.append({'op': 'dump', 'a': dict(noarg), 'res': committed})
-                dumps[len(trace)] = committed
-                back, _ = commit_and_reopen(root, rel, tag)
-                trace.append({'op': 'load', 'a': dict(noarg), 'res': FAILED if back is None else proj_tag(back, ts_ids, sid_ids, hint)})
-                if back is None:
-                    break
-                tag = back
-                continue
-            break
+        try:
+            record_session(chk, rnd, root, rel, trace, dumps)
+        except Exception as exc:  # pylint: disable=broad-except
+            if not through_forml(exc):
+                raise
+            chk.fail(f'life-cycle session: forml raised {type(exc).__name__}: {exc} after {[e["op"] for e in trace]}',
+                     {'kind': 'session', 'trace': trace}, finding=tag_finding(dumps[len(trace)]) if len(trace) in dumps else None)
         traces.append(trace)
         dumped.append(dumps)
-    if rels.root:
-        shutil.rmtree(rels.root, ignore_errors=True)
     # binding self-test: a session whose committed zero ordinal reads back as None must be rejected at the load event
     t1 = {'tr': {'ts': 1, 'ord': {'k': 'int', 'v': 0}}, 'tu': {'ts': 0, 'sc': NOSCORE}, 'st': []}
     t0 = {'tr': {'ts': 1, 'ord': NOORD}, 'tu': {'ts': 0, 'sc': NOSCORE}, 'st': []}
@@ -1047,9 +1098,16 @@ def packages_part(chk, rnd):
             m = {'name': name, 'version': ver, 'package': pkg, 'modules': dict(zip(('source', 'pipeline', 'evaluation'), refs))}
             given = conc_manifest(m)
             where = tempfile.mkdtemp(prefix='mf-', dir=scratch())
-            given.write(where)
-            back = project.Manifest.read(where)
-            shutil.rmtree(where, ignore_errors=True)
+            try:
+                given.write(where)
+                back = project.Manifest.read(where)
+            except Exception as exc:  # pylint: disable=broad-except
+                if not through_forml(exc):
+                    raise
+                chk.fail(f'manifest {tuple(given)}: write / read raised {type(exc).__name__}: {exc}', {'kind': 'manifest', 'manifest': m})
+                continue
+            finally:
+                shutil.rmtree(where, ignore_errors=True)
             if back != given or str(back.version) != str(given.version) or dict(back.modules) != dict(given.modules):
                 chk.fail(f'manifest {tuple(given)} reads back as {tuple(back)}', {'kind': 'manifest', 'manifest': m})
             else:
@@ -1122,6 +1180,8 @@ def _replay(chk, path):
     if kind == 'listing':
         lat = collections.namedtuple('L', 'mode')(rep['mode'])
         listing, latest = real_level(lat, rep['names'], tmp)
+        if isinstance(listing, Raised) or isinstance(latest, Raised):
+            listing, latest = [listing if isinstance(listing, Raised) else latest], None
         now = [None if listing is None else [str(k) for k in listing], None if latest is None else str(latest)]
         print('now:', now, 'recorded:', rep['observed'], 'expected listing:', rep.get('expected', '(judged by TraceKeys.tla)'))
         return 1 if now == rep['observed'] else 0
